@@ -149,7 +149,19 @@ func VerifH_C13_OrderBy() {
 	items, arr := c13MakeItems(n, true)
 	sp := c13Specs[verifChoose(len(c13Specs))]
 	doc := map[string]interface{}{"items": arr}
-	got := hEval("items^("+sp.text+").id", doc)
+	// the sequence to sort is a member of the input, the input array itself ($), the root ($$), or a
+	// filtered context; a following step sees the sorted order
+	var got hOutcome
+	switch verifChoose(4) {
+	case 0:
+		got = hEval("items^("+sp.text+").id", doc)
+	case 1:
+		got = hEval("$^("+sp.text+").id", interface{}(arr))
+	case 2:
+		got = hEval("$$^("+sp.text+").id", interface{}(arr))
+	case 3:
+		got = hEval("$[id >= 0]^("+sp.text+").id", interface{}(arr))
+	}
 	verifAssert(got.kind == oValue, "orderby-evaluates")
 	if got.kind != oValue {
 		return
